@@ -8,6 +8,7 @@ import (
 	"go/token"
 	"go/types"
 	"math/big"
+	"regexp"
 	"sort"
 	"strings"
 )
@@ -112,7 +113,13 @@ func newVC(P *Program, S *Specs) *VC {
 func (vc *VC) note(s string) { vc.notes[s] = true }
 
 func (vc *VC) errorf(f string, a ...any) {
-	vc.errors = append(vc.errors, fmt.Sprintf(f, a...))
+	m := fmt.Sprintf(f, a...)
+	for _, e := range vc.errors {
+		if e == m {
+			return
+		}
+	}
+	vc.errors = append(vc.errors, m)
 }
 
 func (vc *VC) emit(s string) { vc.lines = append(vc.lines, s) }
@@ -283,8 +290,22 @@ func eq(a, b string) string {
 // ---------------------------------------------------------------------------
 // type names, tags, shapes
 
+var byteRe = regexp.MustCompile(`\bbyte\b`)
+var runeRe = regexp.MustCompile(`\brune\b`)
+var anyRe = regexp.MustCompile(`\bany\b`)
+
 func (vc *VC) typeName(t types.Type) string {
-	return types.TypeString(t, func(p *types.Package) string { return p.Name() })
+	s := types.TypeString(t, func(p *types.Package) string { return p.Name() })
+	if strings.Contains(s, "byte") {
+		s = byteRe.ReplaceAllString(s, "uint8")
+	}
+	if strings.Contains(s, "rune") {
+		s = runeRe.ReplaceAllString(s, "int32")
+	}
+	if strings.Contains(s, "any") {
+		s = anyRe.ReplaceAllString(s, "interface{}")
+	}
+	return s
 }
 
 func (vc *VC) typeTag(t types.Type) string {
